@@ -32,7 +32,7 @@ def main():
     ck = vlib.Check("C11", "model_checking")
     thorough = ck.tier == "thorough"
     maxk = 5 if thorough else 3
-    maxreq = 3 if thorough else 2
+    maxreq = 3
 
     def cfg(name, variant=None):
         text = open(os.path.join(vlib.SPEC, name)).read().replace("MaxK = 3", "MaxK = %d" % maxk).replace("MaxReq = 3", "MaxReq = %d" % maxreq)
